@@ -11,7 +11,14 @@ use std::{format, println, string::String, string::ToString, sync::Mutex, vec, v
 static LAST_PANIC: Mutex<String> = Mutex::new(String::new());
 
 fn explore<F: Fn() -> Vec<u32> + std::panic::RefUnwindSafe>(task: &str, fork_limit: usize, max_leaves: usize, f: F) {
-    let mut work: Vec<Vec<bool>> = vec![vec![]];
+    explore2(task, fork_limit, 0, max_leaves, f)
+}
+/// decisions with index < head or among the last `tail` of a run are enumerated both ways; the others are
+/// followed along their default (generic: "not equal") outcome only
+static START_PREFIX: Mutex<Vec<bool>> = Mutex::new(Vec::new());
+fn explore2<F: Fn() -> Vec<u32> + std::panic::RefUnwindSafe>(task: &str, fork_limit: usize, tail: usize, max_leaves: usize, f: F) {
+    let sp = START_PREFIX.lock().map(|g| g.clone()).unwrap_or_default();
+    let mut work: Vec<Vec<bool>> = vec![sp];
     let mut leaves = 0usize;
     while let Some(prefix) = work.pop() {
         start_run(&prefix);
@@ -40,8 +47,8 @@ fn explore<F: Fn() -> Vec<u32> + std::panic::RefUnwindSafe>(task: &str, fork_lim
             break;
         }
         for i in prefix.len()..log.len() {
-            if i >= fork_limit {
-                break;
+            if i >= fork_limit && i + tail < log.len() {
+                continue;
             }
             let mut np: Vec<bool> = log[..i].iter().map(|x| x.out).collect();
             np.push(!log[i].out);
@@ -198,20 +205,85 @@ where
     }
     let t = format!("{}_affine_new", pfx);
     if want(&t) {
-        // only the curve-equation decision is enumerated; the subgroup test (G2) is followed along
-        // its generic path and reported as a final decision on `(p*(r-1)) + p == zero`
-        explore(&t, 1, 8, || {
+        // the curve-equation decisions are enumerated; the subgroup test (G2) is followed along its generic
+        // path. Outputs: flag, kind (0 ok / 1 NotOnCurve / 2 NotInSubgroup as multiples of one), the
+        // coordinates carried by Ok, and - computed by this driver with the (separately verified) group
+        // operations - the coordinates of (p * (r-1)) + p, so that the checker can identify the decided nodes.
+        // directed exploration: (a) curve equation false in each component, (b) curve equation true and the
+        // subgroup test along its generic path ending "not the identity", (c) the same path with the final
+        // comparisons of z((r-1)p + p) against zero decided true
+        let body = || {
             let (x, y) = (P::Base::mkv("X1"), P::Base::mkv("Y1"));
-            match AffineG::<P>::new(x, y) {
-                Ok(a) => cat(vec![flag(true)], cat(a.x().outs(), a.y().outs())),
-                Err(crate::groups::Error::NotOnCurve) => cat(vec![flag(false)], vec![flag(false); 2 * P::Base::N]),
-                Err(crate::groups::Error::NotInSubgroup) => cat(vec![flag(false)], vec![flag(true); 2 * P::Base::N]),
+            let r = AffineG::<P>::new(x, y);
+            let p: G<P> = G::new(x, y, P::Base::one());
+            let refz = if P::check_order() { ((p * (-crate::fields::Fr::one())) + p).z().outs() } else { vec![flag(false); P::Base::N] };
+            let head = match r {
+                Ok(a) => cat(vec![flag(true), flag(false)], cat(a.x().outs(), a.y().outs())),
+                Err(crate::groups::Error::NotOnCurve) => cat(vec![flag(false), flag(false)], vec![flag(false); 2 * P::Base::N]),
+                Err(crate::groups::Error::NotInSubgroup) => cat(vec![flag(false), flag(true)], vec![flag(false); 2 * P::Base::N]),
+            };
+            cat(head, refz)
+        };
+        let n = P::Base::N;
+        let mut prefixes: Vec<Vec<bool>> = Vec::new();
+        for k in 0..=n {
+            let mut p = vec![true; k];
+            if k < n {
+                p.push(false);
             }
-        });
+            prefixes.push(p);
+        }
+        for pf in prefixes.iter() {
+            *START_PREFIX.lock().unwrap() = pf.clone();
+            explore(&t, 0, 1, &body);
+        }
+        if P::check_order() {
+            // (c): take the generic path's log and decide the comparisons "z-coordinate == 0" true
+            *START_PREFIX.lock().unwrap() = vec![true; n];
+            start_run(&vec![true; n]);
+            let outs = body();
+            let log = take_log();
+            let refz: Vec<u32> = outs[2 + 2 * n..].to_vec();
+            let zero = flag(false);
+            let mut pf: Vec<bool> = Vec::new();
+            let mut hit = 0;
+            for d in log.iter() {
+                let is_ref = (refz.contains(&d.a) && d.b == zero) || (refz.contains(&d.b) && d.a == zero);
+                // only the LAST comparison block (the final `!= G::zero()`) is flipped
+                pf.push(d.out);
+                if is_ref {
+                    hit += 1;
+                }
+            }
+            // flip from the first final-comparison decision on: find the last decisions that mention refz
+            let mut idxs: Vec<usize> = Vec::new();
+            for (i, d) in log.iter().enumerate() {
+                if (refz.contains(&d.a) && d.b == zero) || (refz.contains(&d.b) && d.a == zero) {
+                    idxs.push(i);
+                }
+            }
+            let _ = hit;
+            if let Some(&first) = idxs.last() {
+                // decisions are memoised per node pair, so each refz component appears once; force them all true
+                let mut p2: Vec<bool> = log[..first].iter().map(|d| d.out).collect();
+                p2.push(true);
+                for _ in 0..n {
+                    p2.push(true);
+                }
+                *START_PREFIX.lock().unwrap() = p2;
+                explore(&t, 0, 1, &body);
+            }
+        }
+        *START_PREFIX.lock().unwrap() = Vec::new();
     }
     let t = format!("{}_zero_one", pfx);
     if want(&t) {
-        explore(&t, 8, 8, || cat(og::<P>(&G::<P>::zero()), og::<P>(&P::one())));
+        explore(&t, 8, 8, || {
+            // identity, generator, curve coefficient, and the scalar used by the subgroup test (-1 in Fr,
+            // i.e. r-1; it is below q, so it can be exported as a base-field constant)
+            let m1 = SFq::from_slice(&(-crate::fields::Fr::one()).to_slice()).unwrap();
+            cat(cat(cat(og::<P>(&G::<P>::zero()), og::<P>(&P::one())), P::coeff_b().outs()), vec![m1.0])
+        });
     }
 }
 
